@@ -178,7 +178,9 @@ class Printer:
     layout: None (canonical single spaces) or a random.Random used to draw blanks.
     Records tokens as (kind, payload, offset, line, col, end_offset)."""
 
-    def __init__(self, layout=None, multiline=True, comments=True, enc_rng=None):
+    def __init__(self, layout=None, multiline=True, comments=True, enc_rng=None, paren_rng=None):
+        self.paren_rng = paren_rng
+        self.word_depth = 0
         self.buf = []
         self.pos = 0
         self.line = 1
@@ -289,6 +291,7 @@ class Printer:
             first = None
             items = e[1]
             prev_bare = False
+            self.word_depth += 1
             for i, c in enumerate(items):
                 # inside a word every item is a unary; a literal that would touch the
                 # previous literal is parenthesised
@@ -297,13 +300,22 @@ class Printer:
                 prev_bare = (c[0] == 'lit' and c[2] is None and not force)
                 if first is None:
                     first = t
+            self.word_depth -= 1
             return first
         if k == 'seq':
             first = None
             for i, c in enumerate(e[1]):
                 if i:
                     self.blank(True)
-                t = self.expr(c, 2, False)
+                if self.paren_rng is not None and self.word_depth == 0 and self.paren_rng.random() < 0.25:
+                    # redundant parentheses around a space-separated item
+                    t = self.tok('(', c, '(')
+                    self.blank(False)
+                    self.expr(c, -1, False)
+                    self.blank(False)
+                    self.tok(')', c, ')')
+                else:
+                    t = self.expr(c, 2, False)
                 if first is None:
                     first = t
             return first
@@ -358,9 +370,9 @@ class Printer:
 
 
 def print_grammar(stmts, layout=None, multiline=True, comments=True, enc_rng=None,
-                  last_semicolon=True, assign=None):
+                  last_semicolon=True, assign=None, paren_rng=None):
     """Returns (text, tokens, stmt_tokens)."""
-    p = Printer(layout, multiline, comments, enc_rng)
+    p = Printer(layout, multiline, comments, enc_rng, paren_rng)
     stmt_toks = []
     p.blank(False)
     for i, st in enumerate(stmts):
